@@ -426,14 +426,24 @@ class Downloader(ABC):
                             error = True
                             continue
 
-                        if response.date:
-                            os.utime(
-                                target_path,
-                                (response.date.timestamp(), response.date.timestamp()),
-                            )
+                        try:
+                            if response.date:
+                                os.utime(
+                                    target_path,
+                                    (
+                                        response.date.timestamp(),
+                                        response.date.timestamp(),
+                                    ),
+                                )
 
-                        if mirror_paths:
-                            self.link_or_copy(target_path, *mirror_paths)
+                            if mirror_paths:
+                                self.link_or_copy(target_path, *mirror_paths)
+                        except OSError:
+                            # A file without the server's timestamp must not stay:
+                            # the next run would take it for an up to date file
+                            with contextlib.suppress(OSError):
+                                target_path.unlink(missing_ok=True)
+                            raise
 
                         self._downloaded_count += 1
                         self._downloaded_size += size
